@@ -14,6 +14,46 @@ import rt
 ARG_SHAPES = ["{p}", "{p}.sub", "{p}[0]", "{p}.m()", "1", "{p}.a.b", "helper_free({p})", "*{p}", "({p} or None)"]
 
 
+def gen_tree_graph(rng: random.Random, n_funcs: int) -> list[tuple[str, str]]:
+    """A tree-shaped call graph with simple (bare-name / literal / keyword) arguments: every function is called by at
+    most one call site, no recursion - outside both C03 finding classes."""
+    names = [f"tf{i}" for i in range(n_funcs)]
+    sigs = {}
+    for nm in names:
+        r = rng.random()
+        sigs[nm] = (["a", "b"], "a, b") if r < 0.5 else (["a"], "a") if r < 0.7 else (["a", "rest"], "a, *rest") if r < 0.8 \
+            else (["a", "k"], "a, *, k=None") if r < 0.9 else (["a", "kw"], "a, **kw")
+    parent = {names[i]: names[rng.randrange(0, i)] for i in range(1, n_funcs)}
+    defs = []
+    for nm in names:
+        ps, sig = sigs[nm]
+        lines = [f"{p}.own_{nm}_{p}" for p in ps if rng.random() < 0.9]
+        if rng.random() < 0.4:
+            lines.append(f"{ps[0]}.set_{nm} = 1")
+        if rng.random() < 0.2:
+            lines.append(f"local_{nm} = {ps[0]}.x\nlocal_{nm}.y".replace("\n", "\n    "))
+        for child in [c for c, p in parent.items() if p == nm]:
+            cps, csig = sigs[child]
+            p = rng.choice(ps)
+            r = rng.random()
+            if len(cps) == 2 and cps[1] == "b":
+                call = rng.choice([f"{child}({p}, {ps[-1]})", f"{child}({p})", f"{child}(b={p}, a={ps[-1]})", f"{child}({p}, b=1)"])
+            elif cps[-1] == "rest":
+                call = rng.choice([f"{child}({p}, {ps[-1]}, {p})", f"{child}({p})"])
+            elif cps[-1] == "k":
+                call = rng.choice([f"{child}({p}, k={ps[-1]})", f"{child}({p})"])
+            elif cps[-1] == "kw":
+                call = rng.choice([f"{child}({p}, extra={ps[-1]})", f"{child}({p})"])
+            else:
+                call = rng.choice([f"{child}({p})", f"{child}(1)", f"{child}(a={p})"])
+            lines.append(call)
+        if not lines:
+            lines = ["pass"]
+        defs.append((nm, f"def {nm}({sig}):\n" + "\n".join("    " + l for l in lines) + "\n"))
+    rng.shuffle(defs)
+    return defs
+
+
 def gen_graph(rng: random.Random, n_funcs: int, max_calls: int, *, simple_args=False, with_class=True) -> list[tuple[str, str]]:
     """[(name, source)] of top-level definitions (functions, possibly a class) forming a call graph."""
     names = [f"fn{i}" for i in range(n_funcs)]
@@ -143,16 +183,19 @@ def run_generation(path: Path, source: str, *, twice=False, excluded=()):
     raised = None
     results = None
     results2 = None
+    after = None
     with rt.capture_stderr() as buf2:
         try:
             results = generate_results_from_ir(target_ir=file_ir, import_irs={})
+            after = snapshot_ir(file_ir)      # the IR right after the FIRST generation
             if twice:
                 results2 = generate_results_from_ir(target_ir=file_ir, import_irs={})
         except SystemExit:
             raised = "SystemExit"
         except BaseException as e:  # noqa: BLE001
             raised = type(e).__name__
-    after = snapshot_ir(file_ir)
+    if results is None:
+        after = snapshot_ir(file_ir)
 
     def res_py(r):
         if r is None:
